@@ -10,7 +10,7 @@ PROPS = {
              "(runs of 1/63/64/4095/4096/4097/8192/90000 ones, 1/63/511/4096/90000/140000 zeros, periodic patterns and their complements); "
              "(3) length sweep around 64/512/4096/65536/83521/131072 x 6 fills. Each vector is built from a raw vector (all queries: every position and rank "
              "for families 1,3; run/word/block edges +-1 and EVERY rank for family 2; plus the out-of-range set A(.)) and must equal the vectors built by "
-             "FromIterator<bool>, copy_bit_vec and From<SparseVector/RLVector> in every answer; raw vectors reached by push/pop histories (pop_bit and pop_int routes that leave stale words behind the length) "
+             "FromIterator<bool>, copy_bit_vec and From<SparseVector/RLVector> in every answer; raw vectors reached by push/pop histories (pop_bit and pop_int routes that leave stale words behind the length) and by resize up with set bits and back down (within the last word, and across words) "
              "must give the same answers as well, and so must vectors whose support structures were enabled in other orders (enable_rank, enable_pred_succ, enable_select_zero; enable_select_zero, enable_pred_succ, enable_select, enable_rank). A case is non-trivial when it has both set and unset bits; distinct = distinct bit sequences (hashed case keys).",
         bounds={"quick": "N=14, d=2 (462 words), sweep 984 cases", "thorough": "N=18, d=3 (9723 words) + depth 4 over 8 letters (4096 words), sweep 1116 cases"},
         require_counters={"quick": {"vectors_with_long_superblock(ones)": 1, "vectors_with_long_superblock(zeros)": 1, "vectors_with_long_and_short(ones)": 1},
@@ -89,7 +89,7 @@ PROPS["C04"] = dict(
     driver="c04", builds=["rel", "dbg"], level="exploration",
     rule="E-input: (a) every vector of length 0..=L over the full alphabet 0..2^w for small (w, L); (b) every vector of length <= 4 (<= 2 for the widest) over the sparse alphabet {0, 1, 2^(k-1)-1, 2^(k-1), 2^k-1} for k up to 16, and the same five-letter alphabet at widths 17..26 with vectors of <= 3 (<= 1 at the widest) values; "
          "each built from Vec<u64>, from every narrower item type that can hold the values (u8/u16/u32/usize) and by serialize + load, which must all answer identically. Queries: len, width, get, iter, into_iter, "
-         "inverse_select at every index <= len+1 and A(len); for every value of the alphabet (or the present values and their neighbours) plus max+1, 2^w, 2^w+1, 2^63, u64::MAX: contains, value_iter, rank / predecessor / successor at every "
+         "inverse_select at every index <= len+1 and A(len); for every value of the alphabet (or the present values and their neighbours) plus max+1, 2^w, 2^w+1, 2^63, u64::MAX: contains, value_iter (collected, and reached by nth(k) for k around the number of occurrences, after which the iterator must stay exhausted), rank / predecessor / successor at every "
          "index, select / select_iter at every rank <= count+1 and A(.); core: map_down, map_down_with, map_down_with_two_positions, map_up_with against the stable sort by reversed bit representation. "
          "Non-trivial = at least two distinct values; distinct by hashed vector.",
     bounds={"quick": "(w,L) in (1,8) (2,5) (3,4) (4,3); k <= 8 at depth 4, k in {12,16} at depth 2", "thorough": "(w,L) in (1,13) (2,8) (3,5) (4,5) (5,3); k <= 16 at depth 4"},
@@ -107,7 +107,7 @@ PROPS["C06"] = dict(
     rule="E-input: a catalogue of values of every Serialize type (u64, usize, pairs, vectors of them, byte vectors of every length 0..17, ASCII and multi-byte strings, Option and Option<Option<>> of several types incl. Option<SparseVector|RLVector|WaveletMatrix>, "
          "RawVector, IntVector at many widths, BitVector with each of the 8 support subsets, SparseVector (sets and multisets), RLVector with 1/8/9/many blocks, WMCore, WaveletMatrix, RankSupport, SelectSupport) plus every "
          "BitVector / SparseVector / RLVector of <= N bits. For each x: bytes written == 8*size_in_elements == size_in_bytes; load consumes exactly those bytes, equals x, re-serializes identically and answers the query sets of C01-C04; "
-         "also through 1/3/7/8/9-byte short-read readers and 1/3/7-byte short-write sinks; size_by_params for Raw/IntVector over boundary (capacity, width) sets; every wavelet matrix and core of small scopes (levels whose supports differ in size); values of many megabytes around the piece sizes a loader might use (2^17+3 and 2^20+3 elements, 2^16+1 and 2^20+1 pairs, 2^20+5 and 2^23+1 bytes, 2^21 37-bit items, a bitvector of 2^26+70 bits with all supports). Every ordered pair (thorough: every triple over 24 values) "
+         "also through 1/3/7/8/9-byte short-read readers and 1/3/7-byte short-write sinks; size_by_params for Raw/IntVector over boundary (capacity, width) sets; every wavelet matrix and core of small scopes (levels whose supports differ in size); values of many megabytes around the piece sizes a loader might use (2^17+3 and 2^20+3 elements, 2^16+1 and 2^20+1 pairs, 2^20+5 and 2^23+1 bytes, 2^21 37-bit items, a bitvector of 2^26+70 bits with all supports); plain bitvectors obtained by conversion from every multiset sparse vector over universes <= 3 with <= 2u+1 values (duplicates, overfull), with and without supports. Every ordered pair (thorough: every triple over 24 values) "
          "written back to back loads in sequence with the reader ending exactly at the end. Non-trivial = more than one element; distinct by hashed descriptor / descriptor tuple.",
     bounds={"quick": "158-value catalogue, N=12, 24 964 pairs", "thorough": "extended catalogue (all widths, all byte lengths, multi-superblock vectors), N=18, all pairs, 46 656 triples"},
     assumptions=[HOOK_ASSUMPTION, MODEL_ASSUMPTION],
@@ -166,10 +166,10 @@ MANIFEST_TEXT["C14"] = dict(engine="E-fault", design_ref="DESIGN.md §4 C14",
 PROPS["C12"] = dict(
     driver="c12", builds=["rel", "dbg"], level="model_checking",
     rule="E-hist: every push history is replayed on a fresh writer over a real file, ended, and the file compared byte for byte with the serialization of the equivalent in-memory vector. IntVectorWriter: widths x buffer sizes in items "
-         "{0,1,2,3,5,8,64,65} (and the default buffer) x every item count up to 3 buffers + 2 x value stream {pattern, all ones incl. bits above the width, alternating 0/1, thorough: all zeros} x {push, extend<u8|u16|u32|u64|usize>} x ending {close, close twice, drop}. "
+         "{0,1,2,3,5,8,64,65} (and the default buffer) x every item count up to 3 buffers + 2 x value stream {pattern, all ones incl. bits above the width, alternating 0/1, thorough: all zeros} x {push, extend<u8|u16|u32|u64|usize>} x ending {close, close twice, drop, drop by the unwinding of an unrelated panic}. "
          "RawVectorWriter: every push history up to depth d over a 12-letter alphabet (push_bit 0/1, push_int at widths 0,1,7,31,32,33,63,64) and, to depth 3/5, over a 7-letter alphabet of small values (zero bits where an item straddles the buffer limit) x buffer sizes {0,1,64,65,128,192} x endings, with and without a parent header, plus long prefixes that "
          "fill the buffer exactly. Every writer is opened on a path that already holds a longer file of other bytes (4 KiB or 64 KiB, derived from the case). After every push len(); is_open before/after; second close Ok and bytes unchanged; IntVector files load back equal. A state is a history; distinct = histories with at least one bit pushed.",
-    bounds={"quick": "10 widths, depth 4: ~310 000 histories", "thorough": "64 widths, depth 5: ~3.6 M histories"},
+    bounds={"quick": "10 widths, depth 4: ~430 000 histories", "thorough": "64 widths, depth 5: ~4.8 M histories"},
     require_counters={},
     assumptions=[HOOK_ASSUMPTION, "I/O failures are C14's scope; dropping a RawVectorWriter that has a parent header is not generated (the parent is documented to call close_with_header)"],
 )
@@ -201,16 +201,16 @@ PROPS["C18"] = dict(
          "files of 4, 12 and 4100 bytes (not multiples of 8), a symbolic link to a 4096-byte file and a missing file; each history is executed from scratch on the real MemoryMap. Oracle after every action from /proc/self/maps: a successful map is 8-aligned, its whole page-rounded range is mapped to that file, readable "
          "(writable if mutable), as_ref() equals the file content and len() = size/8; missing / non-multiple-of-8 files give Err and leave nothing mapped; an empty file gives Err or a valid empty map; after Drop no page of the dropped range is still mapped to the file and other live maps are intact; "
          "every map sits between two PROT_NONE guard pages placed by the harness (one is placed first so that the library's mapping lands directly below it) and both guards must survive the drop, so an unmap that is one page too long or too short is seen deterministically; with no live "
-         "handle no test file is mapped; the process never holds more open descriptors to a test file than it has live maps of it (so a dropped map keeps nothing of the file open); a write is visible through every live map of the file and in the file after the map is dropped. A state is a history; all histories are distinct by construction.",
+         "handle no test file is mapped; the process never holds more open descriptors to a test file than it has live maps of it (so a dropped map keeps nothing of the file open); a write is visible through every live map of the file and in the file after the map is dropped. OS refusal: a memfd sealed against writes (5 sizes x 2 modes, through /proc/self/fd), for which the kernel refuses a shared writable mapping but accepts weaker ones - MemoryMap::new must fail, or return a map with the right content whose writes (mutable mode) are in the file after the drop. A state is a history; all histories are distinct by construction.",
     bounds={"quick": "depth 1..3 over 13 files + depth 4 over 7 files: 96 911 histories", "thorough": "depth 1..4 over 13 files + depth 5 over 7 files"},
     require_counters={},
     timeout={"quick": 900, "thorough": 4 * 3600},
-    assumptions=[HOOK_ASSUMPTION, "the address space is observed through /proc/self/maps (Linux)", "the only OS refusal provoked is the zero-length mapping"],
+    assumptions=[HOOK_ASSUMPTION, "the address space is observed through /proc/self/maps (Linux)", "the OS refusals provoked are the zero-length mapping and the shared writable mapping of a write-sealed memfd"],
 )
 MANIFEST_TEXT["C18"] = dict(engine="E-hist", design_ref="DESIGN.md §4 C18",
     technique="exhaustive exploration of map/drop/write/read histories on the real MemoryMap with the process address space (/proc/self/maps) and the file contents as oracle",
     level_text="All histories up to depth 3 (thorough 4-5) with up to 3 live maps over 10 file sizes from 0 bytes to many pages and both modes; every action followed by an address-space and content check.",
-    level_note="Observes mappings through /proc/self/maps; failures other than the zero-length mapping (ENOMEM etc.) are not provoked.")
+    level_note="Observes mappings through /proc/self/maps; failures other than the zero-length mapping and the write-sealed memfd (ENOMEM etc.) are not provoked.")
 
 PROPS["C09"] = dict(
     driver="c09", builds=["rel", "dbg", "native"], level="exploration",
@@ -246,7 +246,7 @@ PROPS["C15"] = dict(
     driver="c15", builds=["rel", "dbg"], level="exploration",
     rule="E-input: every non-decreasing value list of <= K values over every universe <= U (incl. overfull lists with more values than elements); duplicates with multiplicities {1,2,5,17} at bucket boundaries 2^w*k-1 / 2^w*k / 0 / n-1 "
          "for universes 64..2^20 (the low width the parameter rule picks) and for universes 2^63, usize::MAX-1, usize::MAX with values at both ends; multisets with 100 000 (thorough 300 000) copies of one value before / after / between other values and behind thousands of empty buckets (long select superblocks in the upper part), queried at the structural edges; SparseVector::try_from_iter over EVERY sequence (sorted or not) of length <= L over 0..A. Checked: len, count_ones, is_multiset, select / select_iter at every rank and A(.), "
-         "get, rank, successor (first occurrence) and predecessor (last occurrence) as full iterators at every position and A(.), one_iter and the bit iterator forward, reversed and at every forward/backward split point (items taken from the front first, and from the back first); try_from_iter accepts exactly "
+         "get, rank, successor (first occurrence) and predecessor (last occurrence) as full iterators at every position and A(.), one_iter and the bit iterator forward, reversed and at every forward/backward split point (items taken from the front first, and from the back first), and with the front advanced by nth(k), k <= 3, after <= 3 items taken from the back (also past the meeting point; the iterator must stay exhausted); try_from_iter accepts exactly "
          "the non-decreasing sequences, sizes the universe to last+1 and equals the multiset builder's vector. Zero-side queries are not checked (documented as not meaningful for multisets). Non-trivial = has duplicates or is a try_from_iter sequence.",
     bounds={"quick": "U=8, K=9; L=5 over 0..6 (9 331 sequences)", "thorough": "U=9, K=10; L=7 over 0..8"},
     require_counters={"quick": {"overfull_cases": 10, "cases_with_duplicates": 100}, "thorough": {"overfull_cases": 10, "cases_with_duplicates": 100}},
